@@ -45,6 +45,7 @@ def instances(tier):
             out.append(dict(id="steps-%s-N2-solverfail" % fam, family=fam, N=2, mode="steps", root_success="fork", budget=b))
     for fam in (["euler", "sympl_euler"] if tier == "quick" else ["euler", "rk4", "midpoint", "sympl_euler", "abas5o6h"]):
         out.append(dict(id="two-calls-%s-N4" % fam, family=fam, N=4, mode="twocalls", budget=b))
+        out.append(dict(id="two-calls-reversal-%s-N3" % fam, family=fam, N=3, mode="twocalls", reverse=True, budget=b))
         out.append(dict(id="shift-%s-N%d" % (fam, min(N, 3)), family=fam, N=min(N, 3), mode="shift", rhs_mode="uf", budget=b))
         out.append(dict(id="reflect-%s-N%d" % (fam, min(N, 3)), family=fam, N=min(N, 3), mode="reflect", rhs_mode="uf", budget=b))
     return out
@@ -104,14 +105,28 @@ def scenario(c, inst):
             c.check("c04.constructs", False, info=repr(built))
             return
         a, rhs, log = built
-        T1 = c.real("T1")
-        c.assume((T1 - t0) * (tf - T1) > 0)
-        c.assume(adt <= absval(c, T1 - t0))
-        c.assume(adt <= absval(c, tf - T1))
+        if inst.get("reverse"):
+            # the second call turns round: its target lies on the other side of the point the first call reached (back towards, onto
+            # or beyond the original start time)
+            T2 = c.real("T2")
+            c.assume((T2 - tf) * (tf - t0) < 0)
+            targets = (None, T2)
+        else:
+            T1 = c.real("T1")
+            c.assume((T1 - t0) * (tf - T1) > 0)
+            c.assume(adt <= absval(c, T1 - t0))
+            c.assume(adt <= absval(c, tf - T1))
+            targets = (T1, None)
         bounds = []
-        for k, target in enumerate((T1, None)):
+        for k, target in enumerate(targets):
             n0 = len(a.t)
             cb = spans.cap_callback(c, cap + 1, kind)
+            if inst.get("reverse") and k == 1:
+                # "dt <= span" for the return leg, measured from the time actually reached (which may stop a tolerance short of tf)
+                here = a.t[-1]
+                c.assume((T2 - here) * (tf - t0) < 0)
+                c.assume(adt <= absval(c, T2 - here))
+                c.assume(absval(c, T2 - here) <= inst["N"] * adt)
             st, r = run(a.integrate, callback=cb) if target is None else run(a.integrate, target, callback=cb)
             if st == "exc":
                 cause = getattr(r, "__cause__", None)
